@@ -5,6 +5,7 @@ import Wbxml.Model.AllocParse
 import Wbxml.Model.AllocEnc
 import Wbxml.Model.AllocOld
 import Wbxml.Model.AllocTree
+import Wbxml.Model.AllocParseLoop
 namespace Driver.AllocDrv
 open Wbxml Wbxml.Model.Alloc
 
@@ -227,9 +228,17 @@ def doU (k1 k2 : Nat) (ops : List String) : String :=
 
 /-! ### P: `parse_element` skeleton -/
 
+/-- `<hex>` or `<idx>.<hex>` (the index is the harness's business: where the string sits in the table). -/
+def hexAfterIdx (r : List Char) : Option Bytes :=
+  match (String.ofList r).splitOn "." with
+  | [h] => unhex h
+  | [_, h] => unhex h
+  | _ => none
+
 def parsePiece (s : String) : Option Piece :=
   match s.toList with
   | 'S' :: r => (if r == ['-'] then some [] else bytesOfHexChars r).map .sta
+  | 'R' :: r => (hexAfterIdx r).map .sta
   | 'D' :: r => (if r == ['-'] then some [] else bytesOfHexChars r).map .dyn
   | 'E' :: r => some (.err (String.ofList r).toNat!)
   | _ => none
@@ -241,7 +250,7 @@ def parseStart (s : String) : Option AttrStart :=
     | [row, pfx] => (unhexOpt pfx).map (.token row.toNat!)
     | _ => none
   | ['U'] => some .unknown
-  | 'L' :: r => (if r == ['-'] then some [] else bytesOfHexChars r).map .literal
+  | 'L' :: r => (hexAfterIdx r).map .literal
   | 'E' :: r => some (.err (String.ofList r).toNat!)
   | _ => none
 
@@ -258,7 +267,7 @@ def parseTagShape (s : String) : Option TagShape :=
   match s.toList with
   | 'T' :: r => some (.token (String.ofList r).toNat!)
   | ['U'] => some .unknown
-  | 'L' :: r => (if r == ['-'] then some [] else bytesOfHexChars r).map .literal
+  | 'L' :: r => (hexAfterIdx r).map .literal
   | 'E' :: r => some (.err (String.ofList r).toNat!)
   | _ => none
 
@@ -415,6 +424,110 @@ def doB (k1 k2 : Nat) (events : String) : String :=
       | (.error _, _) => "UB ?"
     | _ => "UB setup"
 
+
+/-! ### D: `wbxml_tree_from_wbxml` on a document given by its shapes (see harness/oom.c for the grammar) -/
+
+def extSuffix (k : String) : Option Bytes :=
+  if k == "0" then some b!":escape" else if k == "1" then some b!":unesc" else if k == "2" then some b!":noesc" else none
+
+def parseContentSpec (s : String) : Option Content :=
+  match s.toList with
+  | 'S' :: r => (unhex (String.ofList r)).map (fun b => .ref (.sta b))
+  | 'R' :: r => (hexAfterIdx r).map (fun b => .ref (.sta b))
+  | 'D' :: r => (unhex (String.ofList r)).map (fun b => .ref (.dyn b))
+  | 'N' :: r => (hexAfterIdx r).map (fun b => .ref (.dyn b))
+  | 'B' :: r =>
+    match (String.ofList r).splitOn "." with
+    | [b, e] => do
+      let b ← unhex b
+      let e ← unhex e
+      pure (.opqB64 b e)
+    | _ => none
+  | 'X' :: 'I' :: r =>
+    match (String.ofList r).splitOn "." with
+    | [k, h] => do
+      let sfx ← extSuffix k
+      let v ← unhex h
+      pure (.ext (.sta v) sfx)
+    | _ => none
+  | 'X' :: 'T' :: r =>
+    match (String.ofList r).splitOn "." with
+    | [k, _, h] => do
+      let sfx ← extSuffix k
+      let v ← unhex h
+      pure (.ext (.sta v) sfx)
+    | _ => none
+  | '!' :: r => some (.ref (.err (String.ofList r).toNat!))
+  | _ => none
+
+def parseAttrList (s : String) : Option (List AttrShape) :=
+  if s == "-" then some [] else (s.splitOn "|").mapM parseAttrShape
+
+/-- `B<c><tag>~<attrs>`: (tag, attributes, content flag). -/
+def parseElemSpec (r : List Char) : Option (TagShape × List AttrShape × Bool) :=
+  match r with
+  | c :: rest =>
+    match (String.ofList rest).splitOn "~" with
+    | [t, as] => do
+      let t ← parseTagShape t
+      let as ← parseAttrList as
+      pure (t, as, c == '1')
+    | _ => none
+  | [] => none
+
+def parseItemSpec (s : String) : Option Item :=
+  match s.toList with
+  | ['E'] => some .stop
+  | ['W'] => some .skip
+  | ['X', _] => some .skip
+  | 'B' :: r => (parseElemSpec r).map fun (t, as, c) => .elem t as c
+  | 'C' :: l :: r => (parseContentSpec (String.ofList r)).map (.content · (l == 'V'))
+  | 'P' :: r => (parseAttrShape (String.ofList r)).map .pi
+  | '!' :: r => some (.err (String.ofList r).toNat!)
+  | _ => none
+
+def parseStrtblSpec (s : String) : Option StrtblShape :=
+  match s.toList with
+  | ['-'] => some .none
+  | 'Z' :: r => (unhex (String.ofList r)).map .tbl
+  | 'E' :: r => some (.err (String.ofList r).toNat!)
+  | _ => none
+
+def parsePubidSpec (s : String) : Option PubidShape :=
+  match s.toList with
+  | ['K'] => some .known
+  | ['U'] => some .unknown
+  | 'S' :: 'F' :: _ => some (.strRef (.sta []) true)
+  | 'S' :: 'N' :: _ => some (.strRef (.sta []) false)
+  | 'S' :: 'E' :: r => some (.strRef (.err (String.ofList r).toNat!) false)
+  | ['S', 'X'] => some (.strRef (.dyn b!"xmlns") false)
+  | _ => none
+
+def parseRootSpec (s : String) : Option RootShape :=
+  match s.toList with
+  | 'B' :: r => (parseElemSpec r).map fun (t, as, c) => .elem t as c
+  | '!' :: r => some (.err (String.ofList r).toNat!)
+  | _ => none
+
+def doD (k1 k2 : Nat) (wb hdr strtbl pubid pre root body : String) : String :=
+  let doc : Option Doc := do
+    let w ← unhex wb
+    let st ← parseStrtblSpec strtbl
+    let pi ← parsePubidSpec pubid
+    let pre ← (if pre == "-" then some [] else (pre.splitOn ";").mapM parseAttrShape)
+    let root ← parseRootSpec root
+    let body ← (if body == "-" then some [] else (body.splitOn ";").mapM parseItemSpec)
+    pure ⟨w, hdr.toNat!, st, pi, pre, root, body⟩
+  match doc with
+  | none => "BADREQ"
+  | some d =>
+    let s0 : Ledger := { sched := sched 0 k1 k2 }
+    match run (treeFromWbxml d) s0 with
+    | (.ok (ret, c), s) =>
+      s!"R {ret} | {tail s0 s} fault=none | tree={match c with | none => "N" | some c => ctxSig c}"
+    | (.error (.ub w), _) => s!"UB {w}"
+    | (.error _, _) => "UB ?"
+
 def dispatch (line : String) : String :=
   match line.trimAscii.toString.splitOn " " with
   | "OOM" :: "U" :: k1 :: k2 :: ops => doU k1.toNat! k2.toNat! ops
@@ -422,6 +535,8 @@ def dispatch (line : String) : String :=
   | ["OOM", "POLD", k1, k2, tag, attrs] => doP true k1.toNat! k2.toNat! tag attrs
   | ["OOM", "S", k1, k2, texts] => doS k1.toNat! k2.toNat! texts
   | ["OOM", "B", k1, k2, events] => doB k1.toNat! k2.toNat! events
+  | ["OOM", "D", k1, k2, _lang, wb, hdr, strtbl, pubid, pre, root, body] =>
+    doD k1.toNat! k2.toNat! wb hdr strtbl pubid pre root body
   | ["OOM", "T", k1, k2, us, ver, pid, _tree, chunks] => doT false k1.toNat! k2.toNat! (us == "1") ver.toNat! pid.toNat! chunks
   | ["OOM", "TOLD", k1, k2, us, ver, pid, _tree, chunks] => doT true k1.toNat! k2.toNat! (us == "1") ver.toNat! pid.toNat! chunks
   | _ => "BADVERB"
